@@ -37,6 +37,9 @@ pub enum Inject {
     /// mode 1: d[101] = 2 * d[100] (probe 101 is stuck only against the zero history);
     /// mode 2: both
     LinkWarmup { mode: u8 },
+    /// shift the whole time axis so that one inspected reading takes a structured absolute
+    /// value (a non-zero multiple of 2^32, 2^63, u64::MAX, 2^32 - 1, 1)
+    AbsReading { probe: usize, second: bool, value: u64 },
 }
 
 #[derive(Clone, Debug, Serialize, Deserialize)]
@@ -119,6 +122,7 @@ pub fn build_script(c: &Case) -> Script {
                     }
                 }
             }
+            Inject::AbsReading { .. } => {}
             Inject::LinkWarmup { mode } => {
                 if *mode != 1 && d[100] < 1 << 40 {
                     d[99] = d[100];
@@ -140,9 +144,26 @@ pub fn build_script(c: &Case) -> Script {
             }
         }
     }
+    // time-axis shift for AbsReading: build once with first = 0 to learn the offset
+    let mut first = c.first;
+    for inj in &c.injects {
+        if let Inject::AbsReading { probe, second, value } = inj {
+            let mut t = 0u64;
+            let mut off = 0u64;
+            for i in 0..=(*probe % 400) {
+                t = t.wrapping_add(c.gap.max(1));
+                off = t;
+                t = t.wrapping_add(d[i]);
+                if i == *probe % 400 && *second {
+                    off = t;
+                }
+            }
+            first = value.wrapping_sub(off);
+        }
+    }
     let mut z = c.salt | 1;
     let mut r = Vec::with_capacity(1601);
-    let mut t = c.first;
+    let mut t = first;
     r.push(t);
     for i in 0..400 {
         t = t.wrapping_add(c.gap.max(1));
@@ -325,7 +346,10 @@ pub fn inject() -> BoxedStrategy<Inject> {
     prop_oneof![
         2 => (0usize..400, any::<bool>()).prop_map(|(probe, second)| Inject::ZeroReading { probe, second }),
         2 => (0usize..400, 1u64..4).prop_map(|(probe, k)| Inject::Mult32 { probe, k }),
-        5 => (0usize..400, 1usize..=40, 0usize..=8, 0u64..=50).prop_map(|(from, stride, count, back)| Inject::Backwards { from, stride, count, back }),
+        5 => (0usize..400, 1usize..=40, 0usize..=8, prop_oneof![3 => 0u64..=50, 2 => (1u64..=9).prop_map(|k| k * 100), 1 => (1u64..=9).prop_map(|k| k * 100 - 4), 1 => 51u64..=5000])
+            .prop_map(|(from, stride, count, back)| Inject::Backwards { from, stride, count, back }),
+        2 => (0usize..400, any::<bool>(), prop_oneof![3 => (1u64..1000).prop_map(|k| k << 32), 1 => Just(1u64 << 63), 1 => Just(u64::MAX), 1 => Just(0xffff_ffffu64), 1 => Just(1u64)])
+            .prop_map(|(probe, second, value)| Inject::AbsReading { probe, second, value }),
         4 => prop_oneof![0usize..=300, 268usize..=273].prop_map(|count| Inject::Mod100 { count }),
         4 => prop_oneof![0usize..=299, 266usize..=274].prop_map(|count| Inject::Stuck { count }),
         1 => (0u8..3).prop_map(|mode| Inject::LinkWarmup { mode }),
@@ -339,7 +363,12 @@ pub fn strategy() -> BoxedStrategy<Case> {
     let boundary = (268usize..=273, 0u8..3, any::<bool>()).prop_map(|(count, mode, stuck)| {
         vec![if stuck { Inject::Stuck { count } } else { Inject::Mod100 { count } }, Inject::LinkWarmup { mode }]
     });
-    let inj = prop_oneof![5 => Just(Vec::new()), 4 => proptest::collection::vec(inject(), 1..=1), 2 => proptest::collection::vec(inject(), 2..=3), 2 => boundary];
+    // two counters near their thresholds at once: tolerated backward probes whose (negative)
+    // delta is itself a multiple of 100, with the multiple-of-100 count around 270
+    let two = (266usize..=272, 1usize..=3, 1u64..=9, 100usize..390).prop_map(|(count, nback, k, from)| {
+        vec![Inject::Mod100 { count }, Inject::Backwards { from, stride: 3, count: nback, back: k * 100 }]
+    });
+    let inj = prop_oneof![5 => Just(Vec::new()), 4 => proptest::collection::vec(inject(), 1..=1), 2 => proptest::collection::vec(inject(), 2..=3), 2 => boundary, 1 => two];
     (first, pattern(), pattern(), 1u64..=5000, inj, any::<u64>()).prop_map(|(first, warm, counted, gap, injects, salt)| Case { first, warm, counted, gap, injects, salt }).boxed()
 }
 
